@@ -177,6 +177,9 @@ func (g *Gateway) subscriptionHandler(w http.ResponseWriter, r *http.Request) {
 				return
 			}
 
+			// id is reused, stop the subscription which was running under it
+			subDict.Clean(subMsg.ID)
+
 			subDict[subMsg.ID] = subEntry
 
 			go subEntry.Listen(conn)
